@@ -11,11 +11,8 @@ GENS = []
 def register():
     import split_translate
     GENS.append(('Gen/SplitCmd.v', lambda: split_translate.generate(common.REPO)))
-    try:
-        import more_gens
-        GENS.extend(more_gens.gens(common.REPO))
-    except ImportError:
-        pass
+    import ansi_table
+    GENS.append(('Gen/AnsiTable.v', lambda: ansi_table.generate(common.REPO)))
 
 
 def main():
